@@ -24,12 +24,12 @@ type c57Case struct {
 	User   []byte `json:"user"`
 	Action []byte `json:"action"`
 	// second tuple, the one presented at validation
-	Key2    []byte `json:"key2"`
-	User2   []byte `json:"user2"`
-	Action2 []byte `json:"action2"`
-	IssueNs   int64   `json:"issue_ns"`   // t, nanoseconds since the epoch (>= 0)
-	TimeoutNs int64   `json:"timeout_ns"` // may be zero or negative
-	Checks    []int64 `json:"checks"`     // absolute check times, ns
+	Key2      []byte   `json:"key2"`
+	User2     []byte   `json:"user2"`
+	Action2   []byte   `json:"action2"`
+	IssueNs   int64    `json:"issue_ns"`            // t, nanoseconds since the epoch (>= 0)
+	TimeoutNs int64    `json:"timeout_ns"`          // may be zero or negative
+	Checks    []int64  `json:"checks"`              // absolute check times, ns
 	Malformed []string `json:"malformed,omitempty"` // token strings that were not generated (statistics only)
 }
 
@@ -159,7 +159,7 @@ func c57Gen(t *rapid.T) c57Case {
 
 	// issue time with a sub-millisecond part
 	ms := rapid.OneOf(
-		rapid.Int64Range(0, 4_000_000_000_000),                // 1970 .. 2096
+		rapid.Int64Range(0, 4_000_000_000_000),                 // 1970 .. 2096
 		rapid.Int64Range(1_700_000_000_000, 1_800_000_000_000), // around now
 		rapid.Int64Range(0, 100),
 	).Draw(t, "ms")
